@@ -146,6 +146,16 @@ def cases(draw, dag=False):
             hist.append(op)
             apply_ref(G, op)
             gsim.assign((tup(sid), name, tuple(full)), op[4])
+            if draw(st.integers(0, 3)) == 0:
+                # the dependents are computed again, then the very same value is assigned once more: that is an
+                # overwrite like any other (its dependents are discarded)
+                for _ in range(draw(st.integers(1, 3))):
+                    q2 = gen.gen_query(draw, G, sids)
+                    if q2:
+                        q2[1] = gen._jsid(tup(q2[1]))
+                        emit_eval(q2)
+                hist.append(list(op))
+                gsim.assign((tup(sid), name, tuple(full)), op[4])
         elif k == 7 and full is not None and None not in full:
             # (sometimes spelled with the defaulted arguments left out, as the query was)
             spelled = list(args) if (len(args) < len(full) and list(full[:len(args)]) == list(args)
